@@ -182,6 +182,18 @@ func Judge(k *run.K, domain string, a, b geom.Geometry) {
 }
 
 func runAll(c *run.Ctx) {
+	for i := 0; i < c.N(4000, 60000); i++ {
+		c.Case("grid", i, func(k *run.K) {
+			domain := gen.DSmall
+			g := &gen.G{R: k.Rng, Cfg: gen.NewCfg(k.Rng, domain)}
+			a := g.GridTyped(gen.AllTypes[k.Rng.Intn(6)])
+			b := g.GridTyped(gen.AllTypes[k.Rng.Intn(6)])
+			k.In("domain", domain)
+			k.In("a", shared.WKT(a))
+			k.In("b", shared.WKT(b))
+			Judge(k, domain, a, b)
+		})
+	}
 	// 8 operand kinds: 6 plain types, disjoint collection, typed empty
 	perPair := c.N(450, 4000)
 	for ka := 0; ka < 8; ka++ {
